@@ -15,8 +15,10 @@ import (
 	sdk "github.com/cosmos/cosmos-sdk/types"
 	banktypes "github.com/cosmos/cosmos-sdk/x/bank/types"
 	ammtypes "github.com/elys-network/elys/x/amm/types"
+	aptypes "github.com/elys-network/elys/x/assetprofile/types"
 	burnertypes "github.com/elys-network/elys/x/burner/types"
 	epochstypes "github.com/elys-network/elys/x/epochs/types"
+	oracletypes "github.com/elys-network/elys/x/oracle/types"
 	perptypes "github.com/elys-network/elys/x/perpetual/types"
 )
 
@@ -196,15 +198,26 @@ func init() {
 	scenarios["c18-fee-conversion-price-missing"] = func(sc *Scn) {
 		w := sc.w
 		u := w.Accts[1]
+		// a listed asset whose only pool is an oracle pool
+		w.Seed(func(ctx sdk.Context) {
+			w.App.AssetprofileKeeper.SetEntry(ctx, aptypes.Entry{BaseDenom: "uweth", Denom: "uweth", Decimals: 6, DisplayName: "WETH", CommitEnabled: true, WithdrawEnabled: true})
+			w.App.OracleKeeper.SetAssetInfo(ctx, oracletypes.AssetInfo{Denom: "uweth", Display: "WETH", Decimal: 6, BandTicker: "WETH", ElysTicker: "WETH"})
+			w.SetPrice(ctx, "WETH", D("2000"), sc.std.Feeder.Addr.String())
+			w.Fund(ctx, w.Accts[0].Addr, sdk.NewCoins(sdk.NewCoin("uweth", math.NewInt(1_000_000_000_000))))
+			w.Fund(ctx, u.Addr, sdk.NewCoins(sdk.NewCoin("uweth", math.NewInt(1_000_000_000))))
+			w.createPool(ctx, w.Accts[0].Addr, true, D("0.001"), "uweth", math.NewInt(200_000_000_000), math.NewInt(100_000_000), 10, 10)
+		})
+		sc.Empty(5 * time.Second)
+		// the feeder stops reporting WETH; its price is gone (as expiry would remove it)
 		w.Seed(func(ctx sdk.Context) {
 			for _, p := range w.App.OracleKeeper.GetAllPrice(ctx) {
-				if p.Asset == "ATOM" {
+				if p.Asset == "WETH" {
 					w.App.OracleKeeper.RemovePrice(ctx, p.Asset, p.Source, p.Timestamp)
 				}
 			}
 		})
-		tx := &histTx{kind: "bank.send", f: J{"signer": u.Addr.String(), "fee": [][]string{{"uatom", "500000"}}},
-			req: TxReq{Signer: u, Fee: sdk.NewCoins(sdk.NewCoin("uatom", math.NewInt(500000))),
+		tx := &histTx{kind: "bank.send", f: J{"signer": u.Addr.String(), "fee": [][]string{{"uweth", "500000"}}},
+			req: TxReq{Signer: u, Fee: sdk.NewCoins(sdk.NewCoin("uweth", math.NewInt(500000))),
 				Msgs: []sdk.Msg{banktypes.NewMsgSend(u.Addr, w.Accts[2].Addr, sdk.NewCoins(sdk.NewCoin("uusdc", math.NewInt(5))))}}}
 		if !emitBlock(w, sc.out, sc.id, []*histTx{tx}, 5*time.Second, sc.stats) {
 			return
